@@ -577,6 +577,6 @@ func gen(g *zv.Gen) {
 }
 
 func init() {
-	zv.Register(&zv.Prop{ID: "C14", Topic: "c14", Gen: gen, Exec: exec,
+	zv.Register(&zv.Prop{ID: "C14", Topic: "c14", Gen: gen, Exec: exec, Timeout: 60 * time.Second, // generous: a loaded machine must not produce a false timeout
 		Rule: "every revoked-entry list up to length 4 (quick) / 6 (thorough) over 3 serials (positive, negative, >2^128) x 4 query serials x {no cache, first-wins cache, last-wins cache, empty cache}; random CRLs (0..13 entries with duplicate, huge and negative serials; 0..5 extensions incl. CRL-number values valid and malformed in every way, look-alike OIDs, critical flags; random header and issuer); all 1-byte and boundary 2..10-byte CRL-number integers. A case is one distinct (CRL, query, cache mode). T3 = independent restatement of the property (first listed entry, cache = linear, order-preserving partition, copied header)"})
 }
